@@ -647,7 +647,10 @@ func (rpi *RetentionPolicyInfo) Measurement(name string) *MeasurementInfo {
 func (rpi *RetentionPolicyInfo) validMeasurementShardType(shardType, mstName string) error {
 	var msti *MeasurementInfo
 	for _, mst := range rpi.Measurements {
-		if influx.GetOriginMstName(mst.Name) == mstName {
+		// Only the live entry of the measurement itself is skipped. A previous version that is marked deleted
+		// stays in the map until DropMeasurement and may still be taken as the template of a new shard group
+		// (CreateShardGroup takes the first entry of the map), so it keeps constraining the sharding type.
+		if influx.GetOriginMstName(mst.Name) == mstName && !mst.MarkDeleted {
 			continue
 		}
 		msti = mst
